@@ -89,6 +89,8 @@ func (w *world) stepHeight(forceTxs int) {
 			g = w.genDexTx(ups[0])
 		} else if (c.Prop == "C05" || c.Prop == "C06") && t.Chance(1, 3) {
 			g = w.genRLPTx(ups[0])
+		} else if w.govEnabled() && t.Chance(1, 6) {
+			g = w.genGovTx(ups[0])
 		} else {
 			g = w.genTx(ups[0])
 		}
@@ -205,6 +207,9 @@ func (w *world) stepHeight(forceTxs int) {
 	w.chain = append(w.chain, &chainRec{height: h, blockHash: pr.block.BlockHeader.Hash, qc: qc, proposer: p.idx})
 	w.checkIncluded(h, pr.block.Transactions)
 	w.lastBlockTxs = pr.block.Transactions
+	for _, tx := range pr.block.Transactions {
+		w.mintedInBlock += w.daoMint[string(tx)]
+	}
 	for _, tx := range pr.block.Transactions {
 		w.included[string(tx)] = h
 	}
